@@ -369,6 +369,18 @@ def _concat_job(case):
         procs = [[a], [b]] if case["two_procs"] else [[a, b, a]]
         if case["order"]:
             procs = [list(reversed(p)) for p in reversed(procs)]
+    elif kind == "content_type":
+        # one text, two document types: as str the meta element makes it
+        # XML (attribute values as computed, line endings kept), as bytes
+        # behind a byte-order mark it is HTML
+        body = ('<meta http-equiv="Content-Type" content="text/xml; '
+                'charset=utf-8" /><input checked="${flag}" />\r\n<p>x</p>')
+        a = {"cls": "PageTemplate", "body": body, "options": {},
+             "kwargs": {"flag": True}}
+        b = dict(a, as_bytes="utf-8-sig")
+        procs = [[a], [b]] if case["two_procs"] else [[a, b, a]]
+        if case["order"]:
+            procs = [list(reversed(p)) for p in reversed(procs)]
     elif kind == "class_suffix":
         a = dict(kw, cls="SubA", body=x)
         b = dict(kw, cls="A", body=x + "Sub")
@@ -444,10 +456,10 @@ class Bodies(Stage):
                                               "order": order,
                                               "two_procs": two})
         for kind in ("class_suffix", "builtin_names", "builtin_values",
-                     "class_between", "nothing_between",
+                     "content_type", "class_between", "nothing_between",
                      "text_class_between"):
             pairwise = kind in ("class_suffix", "builtin_names",
-                                "builtin_values")
+                                "builtin_values", "content_type")
             for order in range(2 if pairwise else 5):
                 for two in ((False, True) if pairwise else (False,)):
                     cases.append({"base": "concat", "kind": kind,
